@@ -1,5 +1,6 @@
 import inspect
 import sys
+import threading
 from typing import Callable, Dict, List, Optional, Set, Tuple, Type, Union, Any
 
 from ..utils import exceptions as exc
@@ -82,6 +83,7 @@ class BaseParser:
         self.addition_type = None
         self.name = get_obj_name(obj)
         self.is_local = is_local_var(obj)
+        self._resolve_lock = threading.RLock()
         self.setup()
 
     def make_context(self, context=None, force_error: bool = False):
@@ -210,6 +212,14 @@ class BaseParser:
 
     def resolve_forward_refs(self, local_vars=None, ignore_errors: bool = True):
         if not self.forward_refs:
+            return False
+        # the first calls of several threads arrive here together: resolve once, the others wait
+        with self._resolve_lock:
+            return self._resolve_forward_refs(local_vars=local_vars, ignore_errors=ignore_errors)
+
+    def _resolve_forward_refs(self, local_vars=None, ignore_errors: bool = True):
+        if not self.forward_refs:
+            # resolved by another thread in the meantime
             return False
         clear_refs = []
         resolved = False
